@@ -463,17 +463,18 @@ def gen_release_seq(rng):
     return lines, {'maxdepth': 1, 'pre': True, 'op_in_ng': False}
 
 
-def op_flag_case(rng, op, hot=None):
+def op_flag_case(rng, op, hot=None, force=None):
     """the flag rule for EVERY op of the catalogue, arguments from the per-op generators (boundary values included): operands
     with random requires_grad flags, the op inside or outside no_grad; flags of all results are compared with the model"""
     import gen_ops
     gen = gen_ops.gen_basic if op in gen_ops.OPS_BASIC else gen_ops.gen_nn
     leaves, args = gen(rng, op, False)
-    if op == 'pow' and rng.chance(.5):                 # boundary exponent: x ** 0 is still an op on x
-        args = [common.fbits(rng.pick([0.0, -0.0]))]
+    if op == 'pow' and (force in ('pow0', 'pow-0') or rng.chance(.5)):                 # boundary exponent: x ** 0 is still an op on x
+        args = [common.fbits(-0.0 if force == 'pow-0' else 0.0 if force == 'pow0' else rng.pick([0.0, -0.0]))]
         leaves = [(leaves[0][0], [abs(v) + 0.5 for v in leaves[0][1]]) + tuple(leaves[0][2:])]
     zero_bias = op in ('linear', 'conv1d', 'conv2d') and len(leaves) == 3 and rng.chance(.5)
     leaves = [tuple(list(lf[:2]) + [rng.chance(.6) if len(lf) < 4 or lf[3] != 'i64' else False] + list(lf[3:])) for lf in leaves]
+    if force: leaves = [tuple(list(lf[:2]) + [True] + list(lf[3:])) for lf in leaves]      # forced boundary case: tracked operand, grad mode on
     if hot is not None:  # exactly ONE tracked operand, at position `hot` (enumerated by the caller)
         zero_bias = False
         if hot >= len(leaves) or (len(leaves[hot]) > 3 and leaves[hot][3] == 'i64'): raise IndexError(hot)
@@ -484,7 +485,7 @@ def op_flag_case(rng, op, hot=None):
     c = {'op': op, 'leaves': leaves, 'args': args}
     prog = gen_ops.program(c, rng)
     nl = len(leaves)
-    ng = rng.chance(.3) and not zero_bias
+    ng = rng.chance(.3) and not zero_bias and not force
     lines = prog[:nl] + (['t ctx new ng', 't ctx enter 0'] if ng else []) + prog[nl:] + (['t ctx exit 0'] if ng else [])
     io = tprog.run_program(lines)
     res = io[nl + (2 if ng else 0)]
@@ -925,6 +926,13 @@ def cases(rng, tier):
     ]
     for l in corpus:
         out.append({'lines': l, 'stats': {'maxdepth': 2, 'pre': True, 'op_in_ng': True}, 'desc': ' ; '.join(l)})
+    # every run, after everything drawn (their stream is not moved): x ** 0 and x ** -0.0 of a tracked tensor with grad mode on
+    for f in ('pow0', 'pow-0'):
+        try:
+            lines, stats = op_flag_case(rng, 'pow', force=f)
+            out.append({'lines': lines, 'stats': dict(stats, forced='pow with exponent zero'), 'desc': ' ; '.join(l for l in lines if not l.startswith(('t flags', 't modes', 't grad')))[:900]})
+        except Exception:
+            pass
     return out
 
 
